@@ -12,3 +12,4 @@ import OtterVerif.Props.C11
 import OtterVerif.Props.C12
 import OtterVerif.Props.C19
 import OtterVerif.Props.C20
+import OtterVerif.Props.C18
